@@ -59,8 +59,9 @@ func (sl *serialWriter) Write(al plugintypes.AuditLog) error {
 		return nil
 	}
 
-	sl.logger.Println(string(bts))
-	return nil
+	// Output (unlike Println) reports the error of the underlying write, so
+	// that a failed or short write of the record reaches the caller.
+	return sl.logger.Output(2, string(bts))
 }
 
 var _ plugintypes.AuditLogWriter = (*serialWriter)(nil)
